@@ -13,10 +13,11 @@ pub fn entry() -> crate::Entry {
 }
 
 /// annotation kinds; `counted` kinds take a count from COUNTS
-pub const KINDS: [(&str, bool); 19] = [
+pub const KINDS: [(&str, bool); 20] = [
     ("merges", true), ("names-global", true), ("names-local", true), ("names-other-sheet", true), ("names-formula", true), ("ext-links", true), ("int-links", true),
     ("comments", true), ("validations", true), ("cond-formats", true), ("filter", false), ("tab-color", false), ("panes", false), ("page-setup", false),
     ("header-footer", false), ("sheet-protection", false), ("book-protection", false), ("visibility", false), ("active-tab", false),
+    ("links-on-merged-cells", true),
 ];
 pub const COUNTS: [u32; 3] = [1, 2, 12];
 pub const LAYOUTS: [&str; 3] = ["single-sheet", "first-of-3", "last-of-3"];
@@ -57,6 +58,26 @@ pub fn add_kind(b: &mut Spreadsheet, idx: usize, k: usize, count: u32) {
         "names-formula" => {
             for i in 0..count {
                 let _ = b.get_sheet_mut(&idx).unwrap().add_defined_name(format!("Frm_{}", i), format!("SUM(1,{})", i));
+            }
+        }
+        "links-on-merged-cells" => {
+            // two annotation kinds on the SAME cells: merged blocks in columns S:U, an external link on the top-left cell of
+            // each block and, for every second block, another one on its bottom-right cell
+            let ws = b.get_sheet_mut(&idx).unwrap();
+            for i in crate::wbuild::scrambled(0, count.saturating_sub(1)) {
+                let r = 3 + i * 4;
+                ws.add_merge_cells(format!("S{}:U{}", r, r + 2));
+                let c = ws.get_cell_mut((19u32, r));
+                c.set_value_string(format!("block {}", i));
+                let mut h = Hyperlink::default();
+                h.set_url(format!("https://example.com/block/{}", i));
+                c.set_hyperlink(h);
+                if i % 2 == 1 {
+                    let c = ws.get_cell_mut((21u32, r + 2));
+                    let mut h = Hyperlink::default();
+                    h.set_url(format!("https://example.com/block/{}/corner", i));
+                    c.set_hyperlink(h);
+                }
             }
         }
         "ext-links" => add_ext_links(b.get_sheet_mut(&idx).unwrap(), count, &|i| if count >= 12 && i == 5 { String::new() } else { format!("https://example.com/{}/p{}?x={}", idx, i, i * 7) }),
